@@ -12,6 +12,8 @@ CONSTANTS MaxDepth,     \* TLC level bound: MaxDepth - 1 operations after the in
           SpecSet,      \* format specifiers used (subset of Specs)
           SizeSet,      \* size settings used (subset of Sizes)
           TermSet,      \* terminal sizes used (subset of Terms; 1 is the initial one)
+          KindSet,      \* source kinds used (subset of Kinds)
+          PeerVars,     \* variants of the second URL image (subset of PeerVariants; {} = none)
           FaultSteps    \* failure points injected (subset of Steps \cup {AnyStep})
 
 Repeats == {-1, 1, 2}
@@ -29,7 +31,7 @@ InitOut == Out(NoImage(1), Act("init"), "ok", NoFrame, FALSE, 0, FALSE, 0)
 (* or with a freshly constructed one of any source kind.                    *)
 Init ==
   /\ s \in {NoImage(1)} \cup
-           {Opened(1, k, an, sz) : k \in Kinds, an \in BOOLEAN, sz \in InitSizes}
+           {Opened(1, k, an, sz) : k \in KindSet, an \in BOOLEAN, sz \in InitSizes}
   /\ out = InitOut
 
 (* Each action is written out (guard, next state, observable) instead of going     *)
@@ -43,7 +45,7 @@ A(a) == LET r == Apply(s, a) IN En(a) /\ s' = r.st /\ out' = r.out
 
 Open ==
   /\ s.kind = "none"
-  /\ \E k \in Kinds, an \in BOOLEAN, sz \in InitSizes :
+  /\ \E k \in KindSet, an \in BOOLEAN, sz \in InitSizes :
        \E oc \in Outcomes(k), f \in (IF s.faulted THEN {"none"} ELSE FaultSet \cap {"none", "open"}) :
          LET a == [Act("open") EXCEPT !.kind = k, !.anim = an, !.size = sz, !.outcome = oc, !.fault = f]
              r == Apply(s, a) IN En(a) /\ s' = r.st /\ out' = r.out
@@ -100,10 +102,19 @@ CloseIter == s.it.ph # "none" /\ A(Act("closeiter"))
 DropIter == s.it.ph # "none" /\ A(Act("dropiter"))
 CloseImage == s.kind # "none" /\ A(Act("closeimage"))
 DropImage == s.kind # "none" /\ A(Act("dropimage"))
+PeerOpen ==
+  /\ s.kind = "url" /\ s.peer = "none"
+  /\ \E v \in PeerVars :
+       LET a == [Act("peeropen") EXCEPT !.pvar = v]
+           r == Apply(s, a) IN En(a) /\ s' = r.st /\ out' = r.out
+PeerFormat == s.peer # "none" /\ A(Act("peerformat"))
+PeerClose == s.peer # "none" /\ A(Act("peerclose"))
+PeerDrop == s.peer # "none" /\ A(Act("peerdrop"))
 
 Next ==
   \/ Open \/ Format \/ Str \/ Draw \/ Iter \/ Next_ \/ IterSeek \/ ImageSeek \/ NFrames
   \/ SetSize \/ Resize \/ CloseIter \/ DropIter \/ CloseImage \/ DropImage
+  \/ PeerOpen \/ PeerFormat \/ PeerClose \/ PeerDrop
 
 Spec == Init /\ [][Next]_vars
 
@@ -114,6 +125,7 @@ Bound == TLCGet("level") <= MaxDepth
 TypeOK ==
   /\ s.kind \in Kinds \cup {"none"} /\ s.tell \in -1..(N - 1) /\ s.size \in Sizes
   /\ s.term \in Terms /\ s.it.ph \in Live \cup {"none", "closed"} /\ s.it.n \in 0..N
+  /\ s.peer \in {"none", "open", "closed"} /\ s.peerVar \in PeerVariants \cup {""}
 NoLeakAtQuiescence == HandlesOK(s)
 CallerImageNeverClosed == CallerOK(s)
 TempFileIffUrlImageOpen == TempOK(s)
@@ -133,6 +145,11 @@ AnimatedDrawKeepsFrame ==
 RejectedLeavesStateAlone ==
   [][out'.res \in {"ValueError", "TermImageError", "URLNotFoundError",
                    "UnidentifiedImageError"} => [s' EXCEPT !.callerOpen = s.callerOpen] = s]_vars
+(* two URL images never share anything: an operation on one leaves the other alone *)
+ImagesIndependent ==
+  [][IF out'.a.op \in PeerOps
+     THEN [s' EXCEPT !.peer = s.peer, !.peerVar = s.peerVar] = s
+     ELSE s'.peer = s.peer /\ s'.peerVar = s.peerVar]_vars
 SeekKeepsRepeatCount ==
   [][out'.a.op = "iterseek" => s'.it.rep = s.it.rep /\ s'.it.passes = s.it.passes]_vars
 
